@@ -7,7 +7,7 @@ from ..run import inst
 PROPERTY = 'C08'
 ASSUMPTIONS = ['control polygons are Bezier (degree + 1 points); coordinates (homogeneous or Cartesian) are symbolic reals']
 OUTSIDE = ['degrees > 8 (quick) / 14 (thorough)', 'elevation counts > 4']
-BOUNDS = {'quick': 'degrees 1..8, num 1..4, points of dimension 2..4 and rows of points (surface case); reduction of exact elevations for every degree 2..9',
+BOUNDS = {'quick': 'degrees 1..8, num 1..4, points of dimension 2..4 and rows of points (surface case); reduction of exact elevations for every degree 2..9; elevation after earlier calls with other degrees on equally long polygons',
           'thorough': 'degrees 1..10, repeated reductions back to the original degree'}
 
 
